@@ -1,6 +1,372 @@
+(* Lemmas about the model of gradients/vjp.py and gradients/jvp.py *)
 From Coq Require Import List ZArith Lia Bool Arith.
 From PLV Require Import Num.JacProdModel.
 Import ListNotations.
 Open Scope Z_scope.
+
+(* ---------- well-shaped PennyLane structures built from dense data ---------- *)
+(* one Jacobian / dy entry: a rank-0 array (sc = true, the list has length 1) or a rank-1 array *)
+Definition enc_t (sc : bool) (l : list Z) : tens := if sc then T0 (hd 0 l) else T1 l.
+Definition enc_e (sc : bool) (l : list Z) : val := VT (enc_t sc l).
+(* entry list l is well-shaped for dimension d *)
+Definition wf_e (sc : bool) (d : nat) (l : list Z) : Prop := length l = d.
+Definition wf_d (sc : bool) (d : nat) : Prop := d <> O /\ (sc = true -> d = 1%nat).
+
+(* one measurement: kind, dy entry, Jacobian rows (one per trainable parameter) *)
+Record meas := { m_sc : bool; m_dy : list Z; m_rows : list (list Z) }.
+Definition wf_m (k : nat) (m : meas) : Prop :=
+  wf_d (m_sc m) (length (m_dy m)) /\ length (m_rows m) = k /\
+  Forall (fun r => length r = length (m_dy m)) (m_rows m).
+Definition enc_dy (ms : list meas) : val := VTup (map (fun m => enc_e (m_sc m) (m_dy m)) ms).
+Definition enc_jac_t (ms : list meas) : val :=                 (* tuple of tuples (several parameters) *)
+  VTup (map (fun m => VTup (map (enc_e (m_sc m)) (m_rows m))) ms).
+Definition enc_jac_a (ms : list meas) : val :=                 (* tuple of arrays (one parameter) *)
+  VTup (map (fun m => enc_e (m_sc m) (hd [] (m_rows m))) ms).
+(* the explicit contraction: component p of the VJP *)
+Definition contract_vjp (ms : list meas) (p : nat) : Z :=
+  fold_right Z.add 0 (map (fun m => dot (m_dy m) (nth p (m_rows m) [])) ms).
+(* component i of the JVP of one measurement *)
+Definition contract_jvp (tg : list Z) (rows : list (list Z)) (i : nat) : Z :=
+  dot tg (map (fun r => nth i r 0) rows).
+
+(* ---------- basics ---------- *)
 Lemma dot_nil_r : forall a, dot a [] = 0.
 Proof. destruct a; reflexivity. Qed.
+
+Lemma dot_single : forall a x, dot [a] [x] = a * x.
+Proof. intros; cbn [dot]; lia. Qed.
+
+Lemma length1 : forall (l : list Z), length l = 1%nat -> l = [hd 0 l].
+Proof. intros [|x [|y l]] H; cbn in *; try discriminate; reflexivity. Qed.
+
+Lemma eqb_ln_refl : forall a, eqb_ln a a = true.
+Proof. induction a; cbn; [reflexivity | rewrite Nat.eqb_refl, IHa; reflexivity]. Qed.
+
+Lemma all_some_map_Some : forall {A B} (f : A -> B) (l : list A), all_some (map (fun x => Some (f x)) l) = Some (map f l).
+Proof. induction l; cbn; [reflexivity | rewrite IHl; reflexivity]. Qed.
+
+Lemma all_some_ext : forall {A B} (f : A -> option B) (g : A -> B) (l : list A),
+  Forall (fun x => f x = Some (g x)) l -> all_some (map f l) = Some (map g l).
+Proof.
+  induction 1; cbn; [reflexivity|]. rewrite H, IHForall. reflexivity.
+Qed.
+
+Lemma map2o_map : forall {A B C D} (f : A -> B -> C) (a : D -> A) (b : D -> B) (l : list D),
+  map2o f (map a l) (map b l) = Some (map (fun x => f (a x) (b x)) l).
+Proof. induction l; cbn; [reflexivity | rewrite IHl; reflexivity]. Qed.
+
+Lemma firstn_app_exact : forall (r l : list Z), firstn (length r) (r ++ l) = r.
+Proof. induction r; cbn; intros; [reflexivity | rewrite IHr; reflexivity]. Qed.
+Lemma skipn_app_exact : forall (r l : list Z), skipn (length r) (r ++ l) = l.
+Proof. induction r; cbn; intros; auto. Qed.
+
+Lemma chunks_aux_concat : forall n rows fuel, n <> O -> Forall (fun r => length r = n) rows ->
+  (length (concat rows) <= fuel)%nat -> chunks_aux fuel n (concat rows) = Some rows.
+Proof.
+  intros n rows; induction rows as [|r rows IH]; intros fuel Hn Hf Hlen.
+  - destruct fuel; reflexivity.
+  - inversion Hf as [|? ? Hr Hf']; subst.
+    cbn [concat] in *. rewrite app_length in Hlen.
+    destruct r as [|x r]; [cbn in Hn; congruence|].
+    destruct fuel as [|fuel]; [cbn in Hlen; lia|].
+    cbn [chunks_aux app].
+    change (x :: r ++ concat rows) with ((x :: r) ++ concat rows).
+    destruct (Nat.ltb_spec (length ((x :: r) ++ concat rows)) (length (x :: r))) as [Hlt|_].
+    + rewrite app_length in Hlt. lia.
+    + rewrite firstn_app_exact, skipn_app_exact.
+      rewrite IH; [reflexivity | assumption | assumption | cbn in Hlen; lia].
+Qed.
+
+Lemma chunks_concat : forall n rows, n <> O -> rows <> [] -> Forall (fun r => length r = n) rows ->
+  chunks n (concat rows) = Some rows.
+Proof.
+  intros n rows Hn Hne Hf. unfold chunks.
+  destruct (concat rows) eqn:E.
+  - destruct rows as [|r rows]; [congruence|]. inversion Hf; subst.
+    cbn in E. destruct r; [cbn in Hn; congruence | discriminate].
+  - rewrite <- E. apply chunks_aux_concat; auto.
+Qed.
+
+(* ---------- stacking of encoded entries ---------- *)
+Lemma as_t_enc : forall sc rows, all_some (map as_t (map (enc_e sc) rows)) = Some (map (enc_t sc) rows).
+Proof. intros; rewrite map_map; cbn [enc_e as_t]. apply all_some_map_Some. Qed.
+
+Lemma stack_flat_T0 : forall rows, rows <> [] ->
+  stack_flat (map (enc_e true) rows) = Some (map (hd 0) rows).
+Proof.
+  intros rows Hne. unfold stack_flat. rewrite as_t_enc.
+  destruct rows as [|r rows]; [congruence|]. cbn [map].
+  replace (forallb _ (map (enc_t true) rows)) with true.
+  - f_equal. cbn [enc_t]. clear. change (concat (map flatten_t (map (enc_t true) (r :: rows))) = map (hd 0) (r :: rows)).
+    induction (r :: rows); cbn; [reflexivity | rewrite IHl; reflexivity].
+  - symmetry. apply forallb_forall. intros u Hu. apply in_map_iff in Hu as (x & <- & _). reflexivity.
+Qed.
+
+Lemma stack_flat_T1 : forall d rows, rows <> [] -> Forall (fun r => length r = d) rows ->
+  stack_flat (map (enc_e false) rows) = Some (concat rows).
+Proof.
+  intros d rows Hne Hf. unfold stack_flat. rewrite as_t_enc.
+  destruct rows as [|r rows]; [congruence|]. cbn [map].
+  inversion Hf as [|? ? Hr Hf']; subst.
+  replace (forallb _ (map (enc_t false) rows)) with true.
+  - f_equal. clear. change (concat (map flatten_t (map (enc_t false) (r :: rows))) = concat (r :: rows)).
+    induction (r :: rows); cbn; [reflexivity | rewrite IHl; reflexivity].
+  - symmetry. apply forallb_forall. intros u Hu. apply in_map_iff in Hu as (x & <- & Hx).
+    rewrite Forall_forall in Hf'. cbn. rewrite (Hf' x Hx), Nat.eqb_refl. reflexivity.
+Qed.
+
+Lemma map_dot_single : forall a rows, Forall (fun r => length r = 1%nat) rows ->
+  map (dot [a]) rows = vscale a (map (hd 0) rows).
+Proof.
+  induction 1 as [|r rows Hr Hf IH]; [reflexivity|].
+  cbn [map vscale]. fold (vscale a (map (hd 0) rows)). rewrite IH. f_equal. rewrite (length1 r Hr). cbn. lia.
+Qed.
+
+Lemma concat_singletons : forall rows, Forall (fun r => length r = 1%nat) rows ->
+  concat rows = map (hd 0) rows.
+Proof.
+  induction 1 as [|r rows Hr Hf IH]; cbn; [reflexivity|].
+  rewrite IH, (length1 r Hr). reflexivity.
+Qed.
+
+(* ---------- compute_vjp_single ---------- *)
+Lemma vjp_single_array_ok : forall sc dy row,
+  wf_d sc (length dy) -> length row = length dy ->
+  compute_vjp_single (enc_e sc dy) (enc_e sc row) = Ok (VT (T1 [dot dy row])).
+Proof.
+  intros sc dy row [Hd Hsc] Hr. destruct sc.
+  - specialize (Hsc eq_refl). rewrite Hsc in Hr.
+    rewrite (length1 dy Hsc), (length1 row Hr). reflexivity.
+  - unfold enc_e, enc_t, compute_vjp_single. cbn [flatten_t].
+    destruct row as [|x row]; [cbn in Hr; congruence|].
+    cbn [is_shape0]. rewrite Hr, Nat.eqb_refl. reflexivity.
+Qed.
+
+Lemma vjp_single_tuple_ok : forall sc dy rows,
+  wf_d sc (length dy) -> rows <> [] -> Forall (fun r => length r = length dy) rows ->
+  compute_vjp_single (enc_e sc dy) (VTup (map (enc_e sc) rows)) = Ok (VT (T1 (map (dot dy) rows))).
+Proof.
+  intros sc dy rows [Hd Hsc] Hne Hf. unfold compute_vjp_single.
+  destruct (map (enc_e sc) rows) eqn:Em; [destruct rows; [congruence | discriminate]|].
+  rewrite <- Em. clear Em.
+  destruct sc.
+  - specialize (Hsc eq_refl). rewrite Hsc in Hf.
+    destruct dy as [|a [|? ?]]; cbn in Hsc; try discriminate.
+    cbn [enc_e enc_t flatten_t length Nat.eqb hd].
+    rewrite (stack_flat_T0 rows Hne).
+    rewrite map_dot_single by assumption. reflexivity.
+  - cbn [enc_e enc_t flatten_t].
+    rewrite (stack_flat_T1 (length dy) rows Hne Hf).
+    destruct (Nat.eqb_spec (length dy) 1) as [H1|H1].
+    + rewrite H1 in Hf. rewrite concat_singletons by assumption.
+      destruct dy as [|a [|? ?]]; cbn in H1; try discriminate.
+      rewrite map_dot_single by assumption. reflexivity.
+    + rewrite chunks_concat by assumption. reflexivity.
+Qed.
+
+(* ---------- sums of stacked vectors ---------- *)
+Lemma vadd_length : forall a b, length a = length b -> length (vadd a b) = length a.
+Proof. induction a; destruct b; cbn; intros; try discriminate; auto. Qed.
+
+Lemma nth_vadd : forall a b p, length a = length b -> nth p (vadd a b) 0 = nth p a 0 + nth p b 0.
+Proof.
+  induction a; destruct b; cbn; intros p H; try discriminate.
+  - destruct p; reflexivity.
+  - destruct p; [reflexivity | apply IHa; lia].
+Qed.
+
+Lemma sum_stack_T1 : forall vs, sum_stack (map T1 vs) = option_map T1 (vsum1 vs).
+Proof.
+  induction vs as [|v vs IH]; [reflexivity|].
+  destruct vs as [|w vs]; [reflexivity|].
+  cbn [map sum_stack vsum1] in *. rewrite IH.
+  destruct (match vs with [] => Some w | _ :: _ => _ end) as [s|]; cbn [option_map]; [|reflexivity].
+  unfold tadd. cbn [tshape eqb_ln]. rewrite Bool.andb_true_r.
+  destruct (Nat.eqb (length v) (length s)); reflexivity.
+Qed.
+
+Lemma vsum1_some : forall k vs, vs <> [] -> Forall (fun v => length v = k) vs ->
+  exists c, vsum1 vs = Some c /\ length c = k.
+Proof.
+  intros k vs Hne Hf. induction Hf as [|v vs Hv Hf IH]; [congruence|].
+  destruct vs as [|w vs].
+  - exists v. split; [reflexivity | assumption].
+  - destruct IH as (c & Hc & Hl); [discriminate|].
+    cbn [vsum1] in *. rewrite Hc. rewrite Hv, Hl, Nat.eqb_refl.
+    eexists; split; [reflexivity|]. rewrite vadd_length; lia.
+Qed.
+
+Lemma nth_vsum1 : forall k vs c, Forall (fun v => length v = k) vs -> vsum1 vs = Some c ->
+  length c = k /\ forall p, nth p c 0 = fold_right Z.add 0 (map (fun v => nth p v 0) vs).
+Proof.
+  intros k vs. induction vs as [|v vs IH]; intros c Hf Hc; [discriminate|].
+  inversion Hf as [|? ? Hv Hf']; subst.
+  destruct vs as [|w vs].
+  - cbn in Hc. inversion Hc; subst. split; [reflexivity|]. intros p. cbn. lia.
+  - cbn [vsum1] in Hc, IH.
+    destruct (match vs with [] => Some w | _ :: _ => _ end) as [s|] eqn:Es; [|discriminate].
+    destruct (IH s Hf' eq_refl) as [Hl Hn].
+    destruct (Nat.eqb_spec (length v) (length s)) as [E|E]; [|discriminate].
+    inversion Hc; subst. split; [apply vadd_length; assumption|].
+    intros p. rewrite nth_vadd by assumption. rewrite Hn. reflexivity.
+Qed.
+
+Lemma nth_map_dot : forall dy rows p, nth p (map (dot dy) rows) 0 = dot dy (nth p rows []).
+Proof.
+  induction rows as [|r rows IH]; intros p.
+  - destruct p; cbn; rewrite dot_nil_r; reflexivity.
+  - destruct p; cbn; [reflexivity | apply IH].
+Qed.
+
+(* the per-measurement VJP vectors, the vector the code sums *)
+Definition vjp_rows (ms : list meas) : list (list Z) := map (fun m => map (dot (m_dy m)) (m_rows m)) ms.
+
+Lemma vjp_rows_len : forall k ms, Forall (wf_m k) ms -> Forall (fun v => length v = k) (vjp_rows ms).
+Proof.
+  intros k ms H. unfold vjp_rows. rewrite Forall_map. eapply Forall_impl; [|exact H].
+  intros m (_ & Hk & _). rewrite map_length. assumption.
+Qed.
+
+Lemma contract_vjp_spec : forall k ms c, Forall (wf_m k) ms -> vsum1 (vjp_rows ms) = Some c ->
+  length c = k /\ forall p, nth p c 0 = contract_vjp ms p.
+Proof.
+  intros k ms c Hf Hc. destruct (nth_vsum1 k _ c (vjp_rows_len k ms Hf) Hc) as [Hl Hn].
+  split; [assumption|]. intros p. rewrite Hn. unfold contract_vjp, vjp_rows. rewrite map_map.
+  f_equal. apply map_ext. intros m. apply nth_map_dot.
+Qed.
+
+(* ---------- compute_vjp_multi: the except-branch ---------- *)
+Lemma all_some_T0 : forall l,
+  all_some (map (fun t => match t with T0 x => Some x | _ => None end) (map T0 l)) = Some l.
+Proof. induction l; cbn; [reflexivity | rewrite IHl; reflexivity]. Qed.
+
+Lemma stack_row_T0 : forall l, l <> [] -> stack_row (map T0 l) = Some (T1 l).
+Proof.
+  intros [|x l] H; [congruence|]. unfold stack_row. simpl. rewrite all_some_T0. reflexivity.
+Qed.
+
+Lemma fallback_row_ok : forall k m, k <> O -> wf_m k m ->
+  fallback_row (enc_e (m_sc m) (m_dy m)) (VTup (map (enc_e (m_sc m)) (m_rows m)))
+  = Some (T1 (map (dot (m_dy m)) (m_rows m))).
+Proof.
+  intros k m Hk (Hd & Hlen & Hf). unfold fallback_row. rewrite map_map.
+  rewrite (all_some_ext _ (fun r => T0 (dot (m_dy m) r))).
+  - rewrite <- (map_map (dot (m_dy m)) T0). apply stack_row_T0.
+    destruct (m_rows m); [cbn in Hlen; congruence | discriminate].
+  - eapply Forall_impl; [|exact Hf]. intros r Hr. cbn beta.
+    rewrite vjp_single_array_ok by assumption. reflexivity.
+Qed.
+
+Definition dyl (ms : list meas) : list val := map (fun m => enc_e (m_sc m) (m_dy m)) ms.
+Definition jtl (ms : list meas) : list val := map (fun m => VTup (map (enc_e (m_sc m)) (m_rows m))) ms.
+
+Lemma vjp_fallback_ok : forall k ms, k <> O -> Forall (wf_m k) ms ->
+  vjp_fallback (dyl ms) (jtl ms) = match vsum1 (vjp_rows ms) with Some c => Ok (VT (T1 c)) | None => Err end.
+Proof.
+  intros k ms Hk Hf. unfold vjp_fallback, dyl, jtl. rewrite map2o_map.
+  rewrite (all_some_ext _ (fun m => T1 (map (dot (m_dy m)) (m_rows m)))).
+  - rewrite <- (map_map (fun m => map (dot (m_dy m)) (m_rows m)) T1). fold (vjp_rows ms).
+    rewrite sum_stack_T1. destruct (vsum1 (vjp_rows ms)); reflexivity.
+  - eapply Forall_impl; [|exact Hf]. intros m Hm. cbn beta.
+    apply (fallback_row_ok k); assumption.
+Qed.
+
+(* ---------- compute_vjp_multi: the einsum paths ---------- *)
+Lemma as_T0_dyl : forall ms xs, all_some (map as_T0 (dyl ms)) = Some xs ->
+  xs = map (fun m => hd 0 (m_dy m)) ms /\ Forall (fun m => m_sc m = true) ms.
+Proof.
+  induction ms as [|m ms IH]; intros xs H.
+  - cbn in H. inversion H. split; [reflexivity | constructor].
+  - unfold dyl in H. cbn [map] in H. fold (dyl ms) in H. unfold enc_e at 1, enc_t at 1 in H.
+    destruct (m_sc m) eqn:Esc; cbn [as_T0 all_some] in H; [|discriminate].
+    destruct (all_some (map as_T0 (dyl ms))) as [ys|] eqn:E; [|discriminate].
+    inversion H; subst. destruct (IH ys eq_refl) as [-> Hall].
+    split; [reflexivity | constructor; assumption].
+Qed.
+
+Lemma as_T1_dyl : forall ms rows, all_some (map as_T1 (dyl ms)) = Some rows ->
+  rows = map m_dy ms /\ Forall (fun m => m_sc m = false) ms.
+Proof.
+  induction ms as [|m ms IH]; intros xs H.
+  - cbn in H. inversion H. split; [reflexivity | constructor].
+  - unfold dyl in H. cbn [map] in H. fold (dyl ms) in H. unfold enc_e at 1, enc_t at 1 in H.
+    destruct (m_sc m) eqn:Esc; cbn [as_T1 all_some] in H; [discriminate|].
+    destruct (all_some (map as_T1 (dyl ms))) as [ys|] eqn:E; [|discriminate].
+    inversion H; subst. destruct (IH ys eq_refl) as [-> Hall].
+    split; [reflexivity | constructor; assumption].
+Qed.
+
+Lemma dense0_jtl : forall ms, Forall (fun m => m_sc m = true) ms ->
+  dense0 (jtl ms) = Some (map (fun m => map (hd 0) (m_rows m)) ms).
+Proof.
+  intros ms H. unfold dense0, jtl. rewrite map_map. apply all_some_ext.
+  eapply Forall_impl; [|exact H]. intros m Hm. cbn beta. rewrite Hm, map_map.
+  cbn [enc_e enc_t as_T0]. apply all_some_map_Some.
+Qed.
+
+Lemma dense1_jtl : forall ms, Forall (fun m => m_sc m = false) ms ->
+  dense1 (jtl ms) = Some (map m_rows ms).
+Proof.
+  intros ms H. unfold dense1, jtl. rewrite map_map. apply all_some_ext.
+  eapply Forall_impl; [|exact H]. intros m Hm. cbn beta. rewrite Hm, map_map.
+  cbn [enc_e enc_t as_T1]. rewrite all_some_map_Some, map_id. reflexivity.
+Qed.
+
+Lemma einsum_s_sound : forall k ms xs, Forall (wf_m k) ms ->
+  all_some (map as_T0 (dyl ms)) = Some xs -> einsum_s xs (jtl ms) = vsum1 (vjp_rows ms).
+Proof.
+  intros k ms xs Hf H. destruct (as_T0_dyl ms xs H) as [-> Hsc].
+  unfold einsum_s. rewrite dense0_jtl by assumption. rewrite map2o_map.
+  f_equal. unfold vjp_rows. apply map_ext_in. intros m Hin.
+  rewrite Forall_forall in Hf, Hsc. destruct (Hf m Hin) as ((_ & H1) & _ & Hr).
+  specialize (H1 (Hsc m Hin)). rewrite H1 in Hr.
+  destruct (m_dy m) as [|a [|? ?]]; cbn in H1; try discriminate.
+  cbn [hd]. symmetry. apply map_dot_single. assumption.
+Qed.
+
+Lemma einsum_v_sound : forall ms rows r,
+  all_some (map as_T1 (dyl ms)) = Some rows -> einsum_v rows (jtl ms) = Some r -> vsum1 (vjp_rows ms) = Some r.
+Proof.
+  intros ms rows r H He. destruct (as_T1_dyl ms rows H) as [-> Hsc].
+  unfold einsum_v in He. rewrite dense1_jtl in He by assumption.
+  destruct (forallb _ (map m_rows ms)); [|discriminate].
+  rewrite map2o_map in He. exact He.
+Qed.
+
+Lemma dy_kind_scalar : forall ds xs, dy_kind ds = KScalar xs -> all_some (map as_T0 ds) = Some xs.
+Proof.
+  intros ds xs H. unfold dy_kind in H. destruct ds as [|d ds]; [discriminate|].
+  destruct (all_some (map as_T0 (d :: ds))) as [ys|]; [inversion H; reflexivity|].
+  destruct (all_some (map as_T1 (d :: ds))) as [[|a r]|]; try discriminate.
+  destruct (forallb _ r); discriminate.
+Qed.
+
+Lemma dy_kind_vector : forall ds rows, dy_kind ds = KVector rows -> all_some (map as_T1 ds) = Some rows.
+Proof.
+  intros ds rows H. unfold dy_kind in H. destruct ds as [|d ds]; [discriminate|].
+  destruct (all_some (map as_T0 (d :: ds))) as [ys|]; [discriminate|].
+  destruct (all_some (map as_T1 (d :: ds))) as [[|a r]|]; try discriminate.
+  destruct (forallb _ r); [inversion H; reflexivity | discriminate].
+Qed.
+
+(* every path of the several-parameters branch returns the summed per-measurement vectors *)
+Lemma vjp_multi_tuple_sum : forall k ms, k <> O -> ms <> [] -> Forall (wf_m k) ms ->
+  compute_vjp_multi (enc_dy ms) (enc_jac_t ms)
+  = match vsum1 (vjp_rows ms) with Some c => Ok (VT (T1 c)) | None => Err end.
+Proof.
+  intros k ms Hk Hne Hf. unfold enc_dy, enc_jac_t. fold (dyl ms) (jtl ms).
+  destruct ms as [|m0 ms']; [congruence|].
+  unfold compute_vjp_multi. unfold jtl at 1. cbn [map is_tup negb].
+  change (VTup (map (enc_e (m_sc m0)) (m_rows m0)) :: map (fun m => VTup (map (enc_e (m_sc m)) (m_rows m))) ms')
+    with (jtl (m0 :: ms')).
+  set (ms := m0 :: ms') in *.
+  destruct (dy_kind (dyl ms)) as [xs|rows|] eqn:Ek.
+  - apply dy_kind_scalar in Ek. rewrite (einsum_s_sound k ms xs Hf Ek).
+    destruct (vsum1 (vjp_rows ms)) eqn:Ev; [reflexivity|].
+    rewrite (vjp_fallback_ok k ms Hk Hf), Ev. reflexivity.
+  - apply dy_kind_vector in Ek.
+    destruct (einsum_v rows (jtl ms)) as [r|] eqn:Ee.
+    + rewrite (einsum_v_sound ms rows r Ek Ee). reflexivity.
+    + apply (vjp_fallback_ok k ms Hk Hf).
+  - apply (vjp_fallback_ok k ms Hk Hf).
+Qed.
